@@ -37,7 +37,8 @@ ASSUMPTIONS = [
 ]
 
 REQUIRED_GEN_KINDS = ["head", "hhea", "maxp", "hmtx", "cvt", "loca", "os2", "post", "name", "cmapsub", "cmap", "glyph",
-                      "glyphp", "cffint", "dict", "index", "indexo", "charset", "encoding", "fdselect", "ivs"]
+                      "glyphp", "cffint", "dict", "index", "indexo", "charset", "encoding", "fdselect", "ivs", "ivd", "ivr",
+                      "cfft"]
 REQUIRED_TABLE_KINDS = ["head", "hhea", "maxp", "hmtx", "cvt", "loca", "os2", "post", "name", "nameo", "cmapsub", "glyf",
                         "glyph", "glyftbl", "glyfparsed", "cff", "cff2"]
 
@@ -251,10 +252,57 @@ def _families(cases):
             if len(data) > 1:
                 hit("ivs.long_subtable", _set_class([i for i, d in enumerate(data) if d["wdc"] >= 32768], len(data)))
                 hit("ivs.empty_subtable", _set_class([i for i, d in enumerate(data) if d["items"] == 0], len(data)))
+        elif k == "ivd":
+            n = len(v["ris"])
+            long = v["wdc"] >= 32768
+            hit("ivd.long_words_flag", "set" if long else "clear")
+            hit("ivd.word_delta_count", "%s:%d/%d" % ("long" if long else "short", v["wdc"] % 32768, n))
+            hit("ivd.items[%s]" % ("long" if long else "short"), min(v["items"], 2))
+        elif k == "ivr":
+            hit("ivr.regions/axes", "%d/%d" % (min(len(v["regions"]), 3), v["axes"]))
+        elif k == "cfft":
+            # v holds the size classes TLC computed for the table (MC_TableCodec!CfftSizes)
+            def edge(n):
+                return str(n) if 250 <= n <= 260 or 65530 <= n <= 65540 else "other"
+            cid = "cid" if v["cid"] else "name-keyed"
+            hit("cfft.top_dict_data[%s]" % cid, edge(v["top"]))
+            for plen, subrs in zip(v["priv"], v["subrs"]):
+                hit("cfft.private_dict_data[%s]" % ("subrs" if subrs else "no-subrs"), edge(plen))
+            for i, fl in enumerate(v["fd"]):
+                hit("cfft.font_dict_data[%s]" % _pos(i, len(v["fd"])), edge(fl))
+            if v["fd"]:
+                hit("cfft.font_dict_index_data", edge(sum(v["fd"])))
+            hit("cfft.strings", min(v["nstrs"], 3))
+            for sid in v["sids"]:
+                hit("cfft.sid", "<390" if sid < 390 else str(sid) if sid <= 392 else ">392")
+            for ix, n in v["data"].items():
+                hit("cfft.index_data." + ix, n if n in (0, 254, 255, 256, 65534, 65535, 65536) else "other")
+            hit("cfft.charset", v["charset"])
     return fam
 
 
 REQUIRED_FAMILIES = {
+    # two-pass writers: the sizes where the size classes of the encodings change (classes computed by TLC)
+    "cfft.top_dict_data[name-keyed]": [str(n) for n in list(range(250, 261)) + [65533, 65534, 65535, 65536]],
+    "cfft.top_dict_data[cid]": [str(n) for n in range(250, 261)],
+    "cfft.private_dict_data[subrs]": [str(n) for n in list(range(250, 261)) + [65534, 65536]],
+    "cfft.private_dict_data[no-subrs]": [str(n) for n in list(range(250, 261)) + [65533, 65535]],
+    "cfft.font_dict_data[first]": [str(n) for n in range(250, 261)],
+    "cfft.font_dict_index_data": [str(n) for n in list(range(250, 261)) + [65533, 65534, 65535, 65536]],
+    "cfft.strings": ["0", "1", "2", "3"],
+    "cfft.sid": ["<390", "390", "391", "392", ">392"],
+    "cfft.index_data.names": ["254", "255"],
+    "cfft.index_data.strs": ["254", "255", "256", "65534", "65535", "65536"],
+    "cfft.index_data.gs": ["0", "254", "255", "256", "65534", "65535", "65536"],
+    "cfft.index_data.cs": ["254", "255", "256", "65534", "65535", "65536"],
+    "cfft.index_data.ls": ["0", "254", "255", "256", "65534", "65535", "65536"],
+    "cfft.charset": ["predefined", "format0"],
+    # flag-packed fields: the flag set and clear for every count
+    "ivd.long_words_flag": ["set", "clear"],
+    "ivd.word_delta_count": ["%s:%d/3" % (w, n) for w in ("short", "long") for n in range(4)] + ["long:0/0", "short:0/0",
+                                                                                                  "long:16/16", "long:0/16"],
+    "ivd.items[long]": ["0", "1", "2"], "ivd.items[short]": ["0", "1", "2"],
+    "ivr.regions/axes": ["0/0", "0/2", "3/1", "3/2"],
     "composite.components": ["1", "2", "3"],
     "composite.instructions_flag[2]": ["none", "first+bytes", "first+empty", "last+bytes", "last+empty", "all+bytes"],
     "composite.instructions_flag[3]": ["none", "first+bytes", "middle+bytes", "last+bytes", "several-with-last+bytes",
